@@ -36,6 +36,9 @@ type c08Spec struct {
 	stages   []stageOv
 	viaYAML  bool // build through internal/config (buildPipeline) instead of constructing Stage values
 	runs     int  // how many times the pipeline is run before the direct run
+	// tmplBase != "": the task's dir is the TEMPLATE tmplBase+"/{{ .x }}": every execution runs in the directory
+	// named by the value of x it sees (the stage's over the task's)
+	tmplBase string
 }
 
 func kvs(m map[string]string) string {
@@ -115,9 +118,12 @@ func expectedSeen(s c08Spec, i int, cwd string) string {
 	if i >= 0 {
 		who = fmt.Sprintf("s%d", i)
 		env, vars = s.stages[i].env, s.stages[i].vars
-		if s.stages[i].dir != "" {
-			dir = s.stages[i].dir
-		}
+	}
+	if s.tmplBase != "" {
+		dir = filepath.Join(s.tmplBase, get(s.baseVars(), vars, "x"))
+	}
+	if i >= 0 && s.stages[i].dir != "" {
+		dir = s.stages[i].dir
 	}
 	if dir == "" {
 		dir = cwd
@@ -171,6 +177,9 @@ func runC08Spec(s c08Spec) (lines []string, crashed string) {
 		if s.taskDir != "" {
 			td["dir"] = s.taskDir
 		}
+		if s.tmplBase != "" {
+			td["dir"] = s.tmplBase + "/{{ .x }}"
+		}
 		raw := map[string]interface{}{"tasks": map[string]interface{}{"shared": td}, "pipelines": map[string]interface{}{"p": stages}}
 		if s.ctxEnv != nil {
 			td["context"] = "cx"
@@ -189,6 +198,9 @@ func runC08Spec(s c08Spec) (lines []string, crashed string) {
 		shared.Env = variables.FromMap(s.taskEnv)
 		shared.Variables = variables.FromMap(s.taskVars)
 		shared.Dir = s.taskDir
+		if s.tmplBase != "" {
+			shared.Dir = s.tmplBase + "/{{ .x }}"
+		}
 		if s.ctxEnv != nil {
 			shared.Context = "cx"
 		}
@@ -249,6 +261,10 @@ func c08Case(col *Collector, s c08Spec, tag string) {
 	lines, crashed := runC08Spec(s)
 	cwd, _ := os.Getwd()
 	cs := Case{Replay: s.line() + fmt.Sprintf(" yaml=%v runs=%d", s.viaYAML, s.runs), Tags: []string{tag, fmt.Sprintf("stages=%d", len(s.stages))}}
+	if s.tmplBase != "" {
+		cs.Replay += " task dir = <base>/{{ .x }} (a template over the variable x)"
+		cs.Tags = append(cs.Tags, "templated-dir")
+	}
 	cs.NonTrivial = true
 	got := map[string][]string{}
 	for _, l := range lines {
@@ -283,7 +299,7 @@ func c08Case(col *Collector, s c08Spec, tag string) {
 		}
 	}
 	cs.Impl = strings.Join(impl, " | ")
-	if crashed == "" && s.runs == 1 {
+	if crashed == "" && s.runs == 1 && s.tmplBase == "" {
 		// canonical form compared with the Lean model: what every stage execution and the direct run saw
 		canon := func(l string) string {
 			f := map[string]string{}
@@ -363,6 +379,16 @@ func runC08(col *Collector, tier string, seed int64) {
 			}
 			o.fail = rng.Intn(4) == 0
 			s.stages = append(s.stages, o)
+		}
+		if rng.Intn(4) == 0 {
+			// the task's dir is a template over x; x names one of the prepared directories at every level that sets it
+			s.tmplBase, s.taskDir = base, ""
+			s.taskVars["x"] = "d0"
+			for i := range s.stages {
+				if _, ok := s.stages[i].vars["x"]; ok || rng.Intn(2) == 0 {
+					s.stages[i].vars["x"] = []string{"d1", "d2"}[rng.Intn(2)]
+				}
+			}
 		}
 		return s
 	}
